@@ -54,6 +54,12 @@ func nonTokenByte(s string, html bool) bool {
 }
 func reservedBare(s string, html bool) bool { return isReserved(s) && writtenBare(s, html) }
 
+// a document of four or more bytes that starts with 0xEF is either stripped of a BOM or rejected
+// ("expected BOM") by sen.Parse; a bare string U+F000..U+FFFF… at top level is such a document
+func topLevelEF(s string, html bool) bool {
+	return len(s) >= 4 && s[0] == 0xEF && writtenBare(s, html)
+}
+
 func parseFresh(in []byte) Outcome {
 	return guard(func() Outcome {
 		var p sen.Parser
@@ -117,6 +123,8 @@ func judgeString(s []byte, html bool, ctxs []strCtx, out []byte, docs [][]byte, 
 			addKnown("C10-reserved-word", cls+":C10-reserved-word", "the string "+ss+" is written bare and read back as "+o.Tree, s, ex)
 		case c.name == "key" && reservedBare(ss, html):
 			add("violation", cls, "a reserved word as key does not come back", s, ex)
+		case c.name == "top" && topLevelEF(ss, html):
+			addKnown("C10-top-level-ef", cls+":C10-top-level-ef", "a bare top-level string that begins with the byte 0xEF meets the BOM test of Parse: "+o.String(), s, ex)
 		case leadingSign(ss, html):
 			addKnown("C10-leading-sign", cls+":C10-leading-sign", "a string that begins with a sign is written bare and does not come back: "+o.String(), s, ex)
 		case nonTokenByte(ss, html):
@@ -548,6 +556,12 @@ func judgeTree(d *lib.Driver, v any, o wopts) error {
 			return nil
 		}
 	}
+	if sv, ok := v.(string); ok && topLevelEF(sv, o.html) {
+		if ok2, _, _, _ := roundTrips([]any{sv}, o); ok2 {
+			addKnown("C10-top-level-ef", cls+":C10-top-level-ef", "a bare top-level string that begins with the byte 0xEF meets the BOM test of Parse", in, extra)
+			return nil
+		}
+	}
 	// pretty: a container whose members would be indented past the 128 spaces the writer has
 	if strings.HasPrefix(o.writer, "pretty.") && depthOf(v) >= prettyClamp {
 		if ok2, _, _, _ := roundTrips(cutDepth(v, prettyClamp-1), o); ok2 {
@@ -678,6 +692,21 @@ func runC10() {
 			cur = append(cur, strItem{append([]byte{}, s...), html, nctx})
 			if len(cur) >= 128 {
 				flush()
+			}
+		}
+		if *corpus != "" {
+			if data, err := os.ReadFile(*corpus); err == nil {
+				for _, line := range strings.Split(string(data), "\n") {
+					line = strings.TrimSpace(line)
+					if line == "" || strings.HasPrefix(line, "#") {
+						continue
+					}
+					if b, err := lib.UnhexF(strings.Fields(line)[0]); err == nil {
+						addS(b, false, 3)
+						addS(b, true, 3)
+						rep.Count("stream.corpus", 1)
+					}
+				}
 			}
 		}
 		if on("strings") {
